@@ -134,8 +134,12 @@ static void property(Src& s, Case& c) {
   MV v;
   std::string base;
   size_t mode = s.weighted({18, 62, 8, 12});
+  bool dense = s.coin(1, 12);  // maximally dense valid text as the base (also of mutants and prefixes)
   if (mode == 2) base = nesting_text(s, 40);
-  else {
+  else if (dense) {
+    base = dense_text(s);
+    c.cls("base:dense");
+  } else {
     v = gen_value(s, go);
     base = render(s, v, lay);
   }
